@@ -478,24 +478,20 @@ func init() {
 			// named: the function opens the file named by its MetadataFileName argument
 			// (its body calls MetadataFilePath and itself writes, directly or through writeAtomic)
 			type reach struct{ inplace, atomicAt, named bool }
+			// direct properties and callees per function, then the least fixpoint over the call
+			// graph (the graph has cycles: WriteRawBytes -> WriteErrorString -> WriteRaw -> WriteRawBytes)
 			memo := map[string]*reach{}
-			var visit func(name string) *reach
-			visit = func(name string) *reach {
-				if r, ok := memo[name]; ok {
-					return r
-				}
-				r := &reach{}
+			callees := map[string][]string{}
+			var names []string
+			for name := range bodies {
+				names = append(names, name)
+			}
+			sort.Strings(names)
+			for _, name := range names {
+				r := &reach{atomicAt: name == "writeAtomicAt"}
 				memo[name] = r
-				if name == "writeAtomicAt" {
-					r.atomicAt = true
-					return r
-				}
-				body := bodies[name]
-				if body == nil {
-					return r
-				}
 				usesPath, direct := false, false
-				ast.Inspect(body, func(n ast.Node) bool {
+				ast.Inspect(bodies[name], func(n ast.Node) bool {
 					call, ok := n.(*ast.CallExpr)
 					if !ok {
 						return true
@@ -503,10 +499,7 @@ func init() {
 					switch fn := call.Fun.(type) {
 					case *ast.Ident:
 						if _, ok := bodies[fn.Name]; ok {
-							s := visit(fn.Name)
-							r.inplace = r.inplace || s.inplace
-							r.atomicAt = r.atomicAt || s.atomicAt
-							r.named = r.named || s.named
+							callees[name] = append(callees[name], fn.Name)
 							if fn.Name == "writeAtomic" || fn.Name == "writeAtomicAt" {
 								direct = true
 							}
@@ -521,21 +514,30 @@ func init() {
 								direct = true
 							} else if x.Name == "self" {
 								if _, ok := bodies[fn.Sel.Name]; ok {
-									s := visit(fn.Sel.Name)
-									r.inplace = r.inplace || s.inplace
-									r.atomicAt = r.atomicAt || s.atomicAt
-									r.named = r.named || s.named
+									callees[name] = append(callees[name], fn.Sel.Name)
 								}
 							}
 						}
 					}
 					return true
 				})
-				if usesPath && direct {
-					r.named = true
-				}
-				return r
+				r.named = usesPath && direct
 			}
+			for changed := true; changed; {
+				changed = false
+				for _, name := range names {
+					r := memo[name]
+					for _, g := range callees[name] {
+						s := memo[g]
+						n := reach{r.inplace || s.inplace, r.atomicAt || s.atomicAt, r.named || s.named}
+						if n != *r {
+							*r = n
+							changed = true
+						}
+					}
+				}
+			}
+			visit := func(name string) *reach { return memo[name] }
 			writers := map[string]bool{}
 			atomic := map[string]bool{}
 			for name := range firstParamIsName {
